@@ -306,6 +306,27 @@ def recycled_recompile(ev, prev_text, next_text, tries=64):
     return reused
 
 
+INDENTS = ["    ", "  ", " ", "\t\t", "\t"]
+
+
+def rendered_with_options(text, name):
+    """-> [(label, function | None, error | None)]: the module rendered with every indentation string x both layouts
+    (documented PythonCodeGen options), compiled and executed"""
+    ast_ = sut.wrappers().parse_source(text)
+    G = sut.codegen().PythonCodeGen
+    out = []
+    for ind in INDENTS:
+        for expose in (False, True):
+            label = "PythonCodeGen(indentation_char=%r, expose_experiment_variant_function=%r)" % (ind, expose)
+            try:
+                ns = {}
+                exec(compile(G(ast_, indentation_char=ind, expose_experiment_variant_function=expose).generate(), "<options>", "exec"), ns)
+                out.append((label, ns[name], None))
+            except Exception as e:
+                out.append((label, None, "%s: %s" % (type(e).__name__, str(e)[:200])))
+    return out
+
+
 def rendered_again(text, name, expose=False):
     """the function defined by the SECOND generate() of one code generator (followed by other renderings of the same parsed AST):
     rendering must not change the generator or the AST, so this function is as good as the first"""
